@@ -203,15 +203,17 @@ impl Octahedron {
         pt3(0.0, 0.0, 1.0),
         pt3(1.0, 0.0, 0.0),
     ];
+    /// The reciprocal of the square root of 3, to make unit normals.
+    const N: f32 = 0.57735026;
     const NORMS: [Normal3; 8] = [
-        vec3(-1.0, -1.0, -1.0),
-        vec3(-1.0, 1.0, -1.0),
-        vec3(-1.0, 1.0, 1.0),
-        vec3(-1.0, -1.0, 1.0),
-        vec3(1.0, -1.0, -1.0),
-        vec3(1.0, 1.0, -1.0),
-        vec3(1.0, 1.0, 1.0),
-        vec3(1.0, -1.0, 1.0),
+        vec3(-Self::N, -Self::N, -Self::N),
+        vec3(-Self::N, Self::N, -Self::N),
+        vec3(-Self::N, Self::N, Self::N),
+        vec3(-Self::N, -Self::N, Self::N),
+        vec3(Self::N, -Self::N, -Self::N),
+        vec3(Self::N, Self::N, -Self::N),
+        vec3(Self::N, Self::N, Self::N),
+        vec3(Self::N, -Self::N, Self::N),
     ];
     #[rustfmt::skip]
     const VERTS: [(usize, usize); 24] = [
